@@ -290,7 +290,7 @@ Definition act_req (g : cfg) (c : nat) (s : state) : state :=
       match get c s with
       | Some x =>
           if c_cut x
-          then emit (OHandler c) (modc c (fun x => w_infl [3] (w_cut false x)) s)
+          then emit (OHandler c) (modc c (fun x => w_infl (c_infl x ++ [3]) (w_cut false x)) s)
           else if usable x && negb (watch_closed g s)
                   && (negb (kind_eqb (c_kind x) KH1) || idle x)
                then emit (OHandler c) (emit (OBegin c)
